@@ -7,7 +7,7 @@
 //----------------------------------------------------------------------------------------------------------//
 // Calls scalar indexing so they are fully bounds checked.
 template<size_t F, size_t L, size_t S>
-FASTOR_INLINE Tensor<T,range_detector<F,L,S>::value> operator()(const iseq<F,L,S>& idx) {
+FASTOR_INLINE Tensor<T,range_detector<F,L,S>::value> operator()(const iseq<F,L,S>& idx) const {
 
     static_assert(1==dimension_t::value, "INDEXING TENSOR WITH INCORRECT NUMBER OF ARGUMENTS");
     Tensor<T,range_detector<F,L,S>::value> out;
@@ -21,7 +21,7 @@ FASTOR_INLINE Tensor<T,range_detector<F,L,S>::value> operator()(const iseq<F,L,S
 
 template<size_t F0, size_t L0, size_t S0, size_t F1, size_t L1, size_t S1>
 FASTOR_INLINE Tensor<T,range_detector<F0,L0,S0>::value,range_detector<F1,L1,S1>::value>
-        operator()(iseq<F0,L0,S0>, iseq<F1,L1,S1>)  {
+        operator()(iseq<F0,L0,S0>, iseq<F1,L1,S1>) const {
 
     static_assert(2==dimension_t::value, "INDEXING TENSOR WITH INCORRECT NUMBER OF ARGUMENTS");
 
@@ -71,7 +71,7 @@ FASTOR_INLINE Tensor<T,range_detector<F0,L0,S0>::value,
         range_detector<F2,L2,S2>::value,
         range_detector<F3,L3,S3>::value>
         operator ()(iseq<F0,L0,S0>, iseq<F1,L1,S1>,
-                    iseq<F2,L2,S2>, iseq<F3,L3,S3>) {
+                    iseq<F2,L2,S2>, iseq<F3,L3,S3>) const {
 
     static_assert(4==dimension_t::value, "INDEXING TENSOR WITH INCORRECT NUMBER OF ARGUMENTS");
     Tensor<T,range_detector<F0,L0,S0>::value,
@@ -132,7 +132,7 @@ FASTOR_INLINE TensorViewExpr<Tensor<T,Rest...>,2> operator()(Int num, seq _s1) {
     return TensorViewExpr<Tensor<T,Rest...>,2>(*this,seq(num),_s1);
 }
 
-template<typename ... Seq, enable_if_t_<!is_arithmetic_pack_v<Seq...> && !is_fixed_sequence_pack_v<Seq...>,bool> = false>
+template<typename ... Seq, enable_if_t_<!is_arithmetic_pack_v<Seq...> && !is_fixed_sequence_pack_v<Seq...> && !is_immediate_sequence_pack_v<Seq...>,bool> = false>
 FASTOR_INLINE TensorViewExpr<Tensor<T,Rest...>,sizeof...(Seq)> operator()(Seq ... _seqs) {
     static_assert(dimension_t::value==sizeof...(Seq),"INDEXING TENSOR WITH INCORRECT NUMBER OF ARGUMENTS");
     return TensorViewExpr<Tensor<T,Rest...>,sizeof...(Seq)>(*this, {_seqs...});
@@ -357,7 +357,7 @@ FASTOR_INLINE TensorConstViewExpr<Tensor<T,Rest...>,2> operator()(Int num, seq _
     return TensorConstViewExpr<Tensor<T,Rest...>,2>(*this,seq(num),_s1);
 }
 
-template<typename ... Seq, enable_if_t_<!is_arithmetic_pack_v<Seq...> && !is_fixed_sequence_pack_v<Seq...>,bool> = false>
+template<typename ... Seq, enable_if_t_<!is_arithmetic_pack_v<Seq...> && !is_fixed_sequence_pack_v<Seq...> && !is_immediate_sequence_pack_v<Seq...>,bool> = false>
 FASTOR_INLINE TensorConstViewExpr<Tensor<T,Rest...>,sizeof...(Seq)> operator()(Seq ... _seqs) const {
     static_assert(dimension_t::value==sizeof...(Seq),"INDEXING TENSOR WITH INCORRECT NUMBER OF ARGUMENTS");
     return TensorConstViewExpr<Tensor<T,Rest...>,sizeof...(Seq)>(*this, {_seqs...});
